@@ -82,6 +82,7 @@ struct Rec<S: Scheduler> {
 impl<S: Scheduler> Scheduler for Rec<S> {
     fn new_execution(&mut self) -> Option<Schedule> {
         log("X".to_string());
+        LZ_SEEN.with(|l| l.borrow_mut().push(LZ_LIVE.load(std::sync::atomic::Ordering::SeqCst)));
         self.inner.new_execution()
     }
     fn next_task(&mut self, runnable: &[&Task], current: Option<TaskId>, is_yielding: bool) -> Option<TaskId> {
@@ -117,14 +118,27 @@ enum Obj {
 }
 
 // two lazily initialised statics: the initialiser logs itself and draws its value from Shuttle's data source
-fn lz_init(slot: usize) -> u64 {
+fn lz_init(slot: usize) -> LzVal {
     let o = LZ_OBJ.with(|l| l.borrow().get(slot).copied().unwrap_or(99));
     log_op(111, &[o as u64]);
-    srand::thread_rng().next_u64()
+    LZ_LIVE.fetch_add(1, std::sync::atomic::Ordering::SeqCst);
+    LzVal(srand::thread_rng().next_u64())
+}
+/// the value of a lazy static: counted, so that values which outlive their execution can be seen
+struct LzVal(u64);
+impl Drop for LzVal {
+    fn drop(&mut self) {
+        LZ_LIVE.fetch_sub(1, std::sync::atomic::Ordering::SeqCst);
+    }
+}
+static LZ_LIVE: std::sync::atomic::AtomicI64 = std::sync::atomic::AtomicI64::new(0);
+thread_local! {
+    /// number of lazy-static values alive at every new_execution call of the current `multi` run
+    static LZ_SEEN: RefCell<Vec<i64>> = const { RefCell::new(Vec::new()) };
 }
 shuttle_lazy_static_impl::lazy_static! {
-    static ref LZ0: u64 = lz_init(0);
-    static ref LZ1: u64 = lz_init(1);
+    static ref LZ0: LzVal = lz_init(0);
+    static ref LZ1: LzVal = lz_init(1);
 }
 
 enum Guard<'a> {
@@ -592,7 +606,7 @@ fn run_body(p: Arc<Prog>, objs: Arc<Vec<Obj>>, b: usize) -> u64 {
                     continue;
                 };
                 log_op(T_BEGIN, &[code, o as u64]);
-                let v: u64 = if *slot == 0 { *LZ0 } else { *LZ1 };
+                let v: u64 = if *slot == 0 { LZ0.0 } else { LZ1.0 };
                 log_op(110, &[o as u64, v]);
             }
             _ => skip(9),
@@ -718,6 +732,8 @@ fn run_multi(words: &[&str]) -> String {
     config.failure_persistence = FailurePersistence::None;
     config.silence_warnings = true;
     LOG.with(|l| l.borrow_mut().clear());
+    LZ_SEEN.with(|l| l.borrow_mut().clear());
+    let base = LZ_LIVE.load(std::sync::atomic::Ordering::SeqCst);
     let p2 = prog.clone();
     let body = move || {
         let objs = Arc::new(make_objs(&p2.specs));
@@ -733,7 +749,11 @@ fn run_multi(words: &[&str]) -> String {
         Err(p) => classify(p),
     };
     let out = LOG.with(|l| l.borrow().join(" "));
-    format!("{} T={}", out, term)
+    // lazy-static values alive at the start of every execution and after the run (relative to the start of the run)
+    let mut seen = LZ_SEEN.with(|l| l.borrow().clone());
+    seen.push(LZ_LIVE.load(std::sync::atomic::Ordering::SeqCst));
+    let lz = seen.iter().map(|x| (x - base).to_string()).collect::<Vec<_>>().join(",");
+    format!("{} T={} LZ={}", out, term, lz)
 }
 
 // ---------------- sequential histories over the deterministic collections ----------------
